@@ -447,6 +447,17 @@ func init() {
 		}
 		// uninterpreted: validity and value are functions of the bytes
 		okT, val := ufParseFloat(s.b)
+		// strings consisting of 1..15 decimal digits are valid and have an exactly known value
+		if n := len(s.b); n >= 1 && n <= 15 {
+			allDig := True
+			acc := ConstBV(64, 0)
+			for _, b := range s.b {
+				allDig = And(allDig, And(Ule(byteConsts['0'], b), Ule(b, byteConsts['9'])))
+				acc = Add(Mul(acc, ConstBV(64, 10)), ZExt(Sub(b, byteConsts['0']), 64))
+			}
+			okT = Or(allDig, okT)
+			val = Ite(allDig, FFromBV(acc, false, 64), val)
+		}
 		if E.branch(okT) {
 			return tuple{val, nilError()}
 		}
@@ -729,6 +740,18 @@ func symSprintf(f string, args []value) Str {
 				continue
 			}
 		case []value:
+			if spec == "%x" {
+				var sb strings.Builder
+				sb.WriteString("<%x")
+				for _, e := range x {
+					if t, isT := e.(*Term); isT {
+						sb.WriteString(":" + t.ref())
+					}
+				}
+				sb.WriteString(">")
+				out = append(out, mkStr(sb.String()).b...)
+				continue
+			}
 			if spec == "%s" || spec == "%v" || spec == "%q" {
 				ok := true
 				for _, e := range x {
